@@ -408,7 +408,9 @@ package mongokit
 //@   ensures [ghostdef] failTaints(c)
 //@   ensures [C15 name=coherent] imp(err == nil, coherent(c))
 //@   ensures [C15 name=only-drops] all(n, Str, imp(has(c.Indexes, n), old(has(c.Indexes, n)) && c.Indexes[n] == old(c.Indexes[n]))) && ghost.cov == old(ghost.cov)
+//@   ensures [C07,C15 name=id-index-kept] imp(old(has(c.Indexes, "_id_")), has(c.Indexes, "_id_"))
 //@   locals dropped
+//@   loop 0 invariant imp(old(has(c.Indexes, "_id_")), has(c.Indexes, "_id_"))
 //@   loop 0 invariant (cap(dropped) == 0 || fresh(dropped)) && c.Documents == old(c.Documents) && c.Indexes == old(c.Indexes) && all(n, Str, imp(has(c.Indexes, n), old(has(c.Indexes, n)) && c.Indexes[n] == old(c.Indexes[n])))
 
 //@ func (*Collection).Find
